@@ -46,6 +46,34 @@ CLAIMED = {
          "Design: 2-3 boots x option sets x image lengths; the leaking-default variant violates OnlyOwnOptions as it must. Conformance: histories of 1-4 boots in one (forked) process against a recording socket: every datagram is judged (StartAnnouncesBlocks, BlocksConsecutive, EndAfterBlocks, ImageReassembles, ConfigIsDefaultsPlusOptions, OnlyOwnOptions, ConfigDependsOnOwnOptionsOnly, ReturnedStructsAgree, SentToBootedBoard).",
          "Trusted: TLC, fake socket/time substituted from outside, transcription of the sv struct in Boot.tla from sark.struct. unix_time/boot_sig/root_chip are masked.",
          "DESIGN.md §6 C20"),
+ "C01": ("TLA+ specs Multicast (router step, default routing, Propagate to quiescence) + MulticastTrace: the tables produced by the whole pipeline are EXECUTED by TLC for several keys of every net",
+         "Conformance: place / allocate / route / routing_tree_to_tables / minimise_tables by hand (7 placers x radii x 4 minimisation configurations x targets) and through both wrappers on generated machines with faults; TLC propagates each injected packet through the per-chip tables and judges NoDrop, LiveHardwareOnly, NoCirculation, AtMostOnce, ExactDelivery (cores and endpoint exits) and FixedBits.",
+         "Trusted: TLC + Bitwise override, encodings in harness/props/c01.py and harness/proj.py. Expected cores come from the pipeline's own placements/allocations (judged by C02/C05). Keys use 10 active bits; endpoint links are dead links of the fabric. The design-level composition argument is covered by the C03/C04/C10 design jobs (see DESIGN.md).",
+         "DESIGN.md §6 C01"),
+ "C07": ("TLA+ specs Memory (windows, access types, CoversExactly) + MemoryDesign (chunking with any completion order, liveness) + MemoryTrace: TLC keeps its own model of the machine's memory and judges every SCP command and client call",
+         "Design: every (address, length) in a 12-24 byte window x buffer sizes x window sizes, replies completing in any order, ByteExact / ChunksLegal / NothingElseTouched / termination. Conformance: real MachineController + SCPConnection against the simulated machine under lost / duplicated / late datagrams: read, write, fill, sv struct fields, per-core fields, link reads/writes; clauses WithinBuffer, AccessTypeAllowed, LinkWholeWords, CoversExactly, ReturnsStoredBytes, StoresGivenBytes, Env* (the simulator is validated against the model).",
+         "Trusted: TLC, harness/env/spinnaker_sim.py as environment (cross-checked by EnvReadReturnsMemory / EnvFinalMemory / EnvBlockBase), the struct table parsed independently from sark.struct.",
+         "DESIGN.md §6 C07"),
+ "C08": ("TLA+ specs BitField (scopes, co-presence, layout predicates) + BitFieldDesign (permissive post-condition vs first-fit algorithm; as-coded and cross-scope variants refuted) + BitFieldTrace validating full observable tables of real BitField histories",
+         "Design: NoOverlap / WideEnough / Refines / success guarantee at length 4; the scan range as rig coded it violates SuccessFirstFit (fixed in repo); cross-scope first-fit fragmentation refuted (known finding). Conformance: exhaustive small-scope and random histories; clauses NoOverlap, WideEnough, ReadBack, MaskIsUnion, TagsClosed, KeysDistinct, RejectsBadExplicit, MustSucceed*.",
+         "Trusted: TLC, table extraction in harness/props/c08.py. Bit fields up to 32 bits. Two known findings are listed in known_findings.json.",
+         "DESIGN.md §6 C08"),
+ "C09": ("TLA+ specs LoadApp (flood-fill packets, receiver rules; extends Regions) + LoadAppDesign (client retry loop x per-chip receivers, packet by packet; count-mode and overwrite variants refuted) + LoadAppTrace validating real load_application runs against the simulated machine",
+         "Design: every assignment / miss pattern / n_tries / mode at 2 chips x 2 cores (0.1-3 M states, incl. termination). Conformance: exhaustive miss schedules at small scope + random; 30+ clauses incl. StartAnnouncesBlocks, BlocksConsecutive, ImageReassembles, SelectsExactTargets, RetriesOnlyMissing, ReturnedMeansAllLoaded, RaisedNamesExactlyMissing, SimulatorCommitMatchesModel.",
+         "Trusted: TLC, simulator as environment (validated by Simulator* clauses). Assumptions: whole-word binaries < 256 blocks; use_count only without foreign waiting cores (its documented precondition, refuted otherwise in the design job); reloading over a waiting core is outside the domain.",
+         "DESIGN.md §6 C09"),
+ "C13": ("TLA+ specs FileView (fixed-length file semantics, confinement) + FileViewDesign (root + slices, all short histories) + FileViewTrace validating real MemoryIO / SlicedMemoryIO histories over a recording controller, plus replay of TLC-simulated behaviours into the real objects",
+         "Design: 0.14-2 M states, Confined / Nested / ReadsLastWritten / PositionAdvances / SliceNamesExactly ... Conformance: all sequences of <= 3 operations at small scope, random histories, and behaviours generated by tlc -simulate replayed into rig; every controller access is judged.",
+         "Trusted: TLC, recording controller. One known finding (seek from the end) listed in known_findings.json with a key naming the exact relation observed.",
+         "DESIGN.md §6 C13"),
+ "C17": ("TLA+ specs History (ProbeClauses over digests) + HistoryDesign (library with memo / mutable default; six faulty variants refuted) + HistoryTrace validating call histories executed in fresh interpreters",
+         "Design: HistoryIndependent and MechanismImpliesIndependence for the fault-free library, each injected fault violates exactly its clause. Conformance: histories of 3-8 real library calls per child process with deep before/after digests of every argument, of all 23 mutable default arguments and of the ring memo; the probe call is re-run first in a fresh interpreter (FreshAgrees).",
+         "Trusted: TLC, the canonical digest encoding (round-trip self-tested), PYTHONHASHSEED=0. TLA+ is used here as a uniform clause evaluator over digests; the model is small by nature (DESIGN.md §7).",
+         "DESIGN.md §6 C17"),
+ "C18": ("TLA+ specs Context (Resolved / Lacking; extends Spinn5 for the connection choice) + ContextDesign (stack discipline, application blocks; pop-first variant refuted) + ContextTrace validating every datagram of every decorated MachineController / BMPController method under nested contexts",
+         "Design: 0.17-0.76 M states: MergedAgrees, MechanismAgrees, ExitRestores, StopsOwnApp. Conformance: 42 + 7 methods found by introspection, arguments passed positionally / by keyword / from nested contexts / by default, exits by exception, discovered connections; clauses ResolvedX/Y/P/AppId, RequiredRejectedBeforeSend, NothingSentOnReject, ExitRestores, ApplicationExitStops, RightConnection.",
+         "Trusted: TLC, the datagram decoder of the fake machine in harness/props/c18.py. Five known findings (context core leaking into internal reads of five methods) are listed in known_findings.json.",
+         "DESIGN.md §6 C18"),
 }
 NOT_YET = "check not built yet in this round (planned in DESIGN.md §6); not claimed until its spec and conformance harness exist"
 
